@@ -10,6 +10,7 @@ import (
 	"fmt"
 	"go/types"
 	"os"
+	"path/filepath"
 	"runtime/pprof"
 	"sort"
 	"strings"
@@ -23,26 +24,26 @@ import (
 )
 
 type itemResult struct {
-	ID        string           `json:"id"`
-	Item      map[string]any   `json:"item"`
-	Error     string           `json:"error,omitempty"`
-	Paths     int              `json:"paths"`
-	Complete  bool             `json:"complete"`
-	Decisions int              `json:"decisions"`
-	Outcomes  map[string]int   `json:"outcomes"`
-	Reach     map[string]int   `json:"reach"`
-	Fails     []failRec        `json:"fails,omitempty"`
-	Incon     []failRec        `json:"inconclusive,omitempty"`
-	Sample    []pathRec        `json:"sample,omitempty"`
-	Closure   string           `json:"closure"`
-	Stats     map[string]any   `json:"stats"`
-	MaxWork   int64            `json:"max_work"`
+	ID        string            `json:"id"`
+	Item      map[string]any    `json:"item"`
+	Error     string            `json:"error,omitempty"`
+	Paths     int               `json:"paths"`
+	Complete  bool              `json:"complete"`
+	Decisions int               `json:"decisions"`
+	Outcomes  map[string]int    `json:"outcomes"`
+	Reach     map[string]int    `json:"reach"`
+	Fails     []failRec         `json:"fails,omitempty"`
+	Incon     []failRec         `json:"inconclusive,omitempty"`
+	Sample    []pathRec         `json:"sample,omitempty"`
+	Closure   string            `json:"closure"`
+	Stats     map[string]any    `json:"stats"`
+	MaxWork   int64             `json:"max_work"`
 	MaxWorkM  map[string]uint64 `json:"max_work_model,omitempty"`
-	MinWork   int64            `json:"min_work"`
-	Funcs     []string         `json:"funcs_sym,omitempty"`
-	Vars      []string         `json:"vars"`
-	WallS     float64          `json:"wall_s"`
-	SetupS    float64          `json:"setup_s"`
+	MinWork   int64             `json:"min_work"`
+	Funcs     []string          `json:"funcs_sym,omitempty"`
+	Vars      []string          `json:"vars"`
+	WallS     float64           `json:"wall_s"`
+	SetupS    float64           `json:"setup_s"`
 }
 
 type failRec struct {
@@ -127,6 +128,7 @@ func worker(args []string) {
 	solver := fs.String("solver", "z3", "z3 | z3-new | cvc5")
 	timeout := fs.Int("qtimeout", 10000, "per-query timeout (ms)")
 	cpuprof := fs.String("cpuprofile", "", "write CPU profile")
+	covout := fs.String("covout", "", "directory: write block coverage of github.com/coregx/* functions as cov-<pid>.json at exit")
 	fs.Parse(args)
 	if *cpuprof != "" {
 		f, _ := os.Create(*cpuprof)
@@ -177,6 +179,12 @@ func worker(args []string) {
 		}
 	}
 	ex.Close()
+	if *covout != "" {
+		cov := m.Coverage()
+		if b, err := json.Marshal(cov); err == nil {
+			os.WriteFile(filepath.Join(*covout, fmt.Sprintf("cov-%d.json", os.Getpid())), b, 0o644)
+		}
+	}
 }
 
 func getInt(it map[string]any, k string, def int) int {
